@@ -856,6 +856,9 @@ class SyncState:  # pylint: disable=too-many-instance-attributes, too-many-publi
         if ent[side].otype == DIRECTORY and prior_path != path and not prior_path is None:
             # changing directory also changes child paths
             for sub, relative in self.get_kids(prior_path, side):
+                if sub[side].oid is None:
+                    # ousted from its id by another entry: it is in no path index, its path cannot be changed
+                    continue
                 new_path = provider.join(path, relative)
                 if provider.oid_is_path:
                     # TODO: state should not do online hits esp from event manager
